@@ -167,7 +167,24 @@ class P8(WorkChain):
         return self.ctx.r
 
 
-PROGRAMS = [P0, P1, P2, P3, P4, P5, P6, P7, P8]
+P9 = _build('P9', {
+    'run': dict(nawait=2, ret=('raise', 'async boom')),      # a step that fails after two await points
+})
+
+P10 = _build('P10', {
+    'run': dict(nawait=1, out=('a', 1), ret=('value', 5)),   # normal return, but a required output is never emitted:
+}, outputs=('a',))                                           # entering FINISHED is refused, FINISHED(unsuccessful) entered instead
+
+
+def _p10_define(cls, spec):
+    super(P10, cls).define(spec)
+    spec.output('a', required=False)
+    spec.output('needed', required=True)
+
+
+P10.define = classmethod(_p10_define)
+
+PROGRAMS = [P0, P1, P2, P3, P4, P5, P6, P7, P8, P9, P10]
 N_PROGRAMS = len(PROGRAMS)
 
 
